@@ -318,8 +318,6 @@ var reviewedCount = map[string]int{
 	"parser/isPublic":                             1,
 	"parser/scopesToString":                       1,
 	"transpiler/transpiler.evaluateIf":            1,
-	"transpiler/transpiler.evaluateVarAssignment": 1,
-	"transpiler/transpiler.evaluateVarDefinition": 1,
 }
 
 var reviewedIndex = map[string]string{
@@ -339,8 +337,6 @@ var reviewedIndex = map[string]string{
 	"Parser.evaluateArguments":                       "index = len(args)-1 after an append; bounded by the parameter count check directly above",
 	"Parser.evaluateInput$1":                         "guarded by len(expressions) > 0",
 	"Tokenize":                                       "sub-match indices follow from the capture groups of the constant regex; split of a matched comment has ≥ 1 element; source[i:] with i < len(source) by the loop condition",
-	"transpiler.evaluateVarDefinition":               "values and variables have equal length (parser slot rule R-C06: arity checked at construction)",
-	"transpiler.evaluateVarAssignment":               "values and variables have equal length (parser slot rule R-C06: arity checked at construction)",
 	"transpiler.evaluateVarDefinitionCallAssignment": "guarded by the explicit length comparison above",
 	"transpiler.evaluateVarAssignmentCallAssignment": "guarded by the explicit length comparison above",
 	"transpiler.evaluateIf":                          "condition list has one entry per else-if branch (filled by the loop over the same accessor)",
@@ -489,6 +485,25 @@ func indexDischarged(fn *ssa.Function, blk *ssa.BasicBlock, base, index ssa.Valu
 							return true
 						}
 					}
+				}
+			}
+			// range over the variables of an assignment node, indexing its values (or the reverse):
+			// the parser builds these nodes only with lists of equal length (R-C06 arity), also
+			// when the two lists reach this function as parameters from such accessors
+			for _, ref := range *bo.Referrers() {
+				cmp, ok := ref.(*ssa.BinOp)
+				if !ok || cmp.Op != token.LSS || cmp.X != bo {
+					continue
+				}
+				lenA, ok := cmp.Y.(*ssa.Call)
+				if !ok {
+					continue
+				}
+				if bi, ok := lenA.Call.Value.(*ssa.Builtin); !ok || bi.Name() != "len" {
+					continue
+				}
+				if idxWorld != nil && pairedNodeLists(idxWorld, fn, base, lenA.Call.Args[0]) {
+					return true
 				}
 			}
 			// range over another list A whose length was tested equal to len(base)
@@ -746,6 +761,76 @@ func indexDischarged(fn *ssa.Function, blk *ssa.BasicBlock, base, index ssa.Valu
 		return pb.ltLen(index, blk)
 	}
 	return false
+}
+
+// equalLengthAccessors: node types whose two list accessors are of equal length by construction
+// (the parser's arity test at the construction of the node, R-C06-slot … :Arity).
+var equalLengthAccessors = map[string][2]string{
+	"VariableDefinition": {"Variables", "Values"},
+	"VariableAssignment": {"Variables", "Values"},
+}
+
+// pairedNodeLists: a and b are the two equal-length lists of one assignment node: accessor
+// calls on the same node value, or parameters that receive such a pair at every call site.
+func pairedNodeLists(w *World, fn *ssa.Function, a, b ssa.Value) bool {
+	acc := func(v ssa.Value) (string, string, ssa.Value, bool) {
+		c, ok := v.(*ssa.Call)
+		if !ok || c.Call.StaticCallee() == nil || len(c.Call.Args) != 1 {
+			return "", "", nil, false
+		}
+		callee := c.Call.StaticCallee()
+		if callee.Signature.Recv() == nil {
+			return "", "", nil, false
+		}
+		return namedName(callee.Signature.Recv().Type()), callee.Name(), c.Call.Args[0], true
+	}
+	pair := func(x, y ssa.Value) bool {
+		nx, mx, rx, ok1 := acc(x)
+		ny, my, ry, ok2 := acc(y)
+		if !ok1 || !ok2 || nx != ny || !(rx == ry || rootOf(rx, 0) == rootOf(ry, 0)) {
+			return false
+		}
+		p, ok := equalLengthAccessors[nx]
+		return ok && ((mx == p[0] && my == p[1]) || (mx == p[1] && my == p[0]))
+	}
+	if pair(a, b) {
+		return true
+	}
+	pa, ok1 := a.(*ssa.Parameter)
+	pb, ok2 := b.(*ssa.Parameter)
+	if !ok1 || !ok2 {
+		return false
+	}
+	ia, ib := -1, -1
+	for i, p := range fn.Params {
+		if p == pa {
+			ia = i
+		}
+		if p == pb {
+			ib = i
+		}
+	}
+	if ia < 0 || ib < 0 {
+		return false
+	}
+	sites := 0
+	for _, role := range append(append([]string{}, libRoles...), "main") {
+		for _, g := range w.Funcs(role) {
+			for _, blk := range g.Blocks {
+				for _, ins := range blk.Instrs {
+					c, ok := ins.(*ssa.Call)
+					if !ok || c.Call.StaticCallee() != fn {
+						continue
+					}
+					sites++
+					if ia >= len(c.Call.Args) || ib >= len(c.Call.Args) || !pair(c.Call.Args[ia], c.Call.Args[ib]) {
+						return false
+					}
+				}
+			}
+		}
+	}
+	return sites > 0
 }
 
 // idxEngine: character tests of the lexer (set by c13Index for the duration of the rule).
